@@ -121,8 +121,9 @@ type Signer struct {
 	// Fault: call index -> "error" | "panic" | "other-key" (the last certificate of the reply is issued for a key other than the requested one, no error)
 	Fault map[int]string
 	Agent *wire.Agent
-	// NonCert adds a plain public key to the reply
-	NonCert bool
+	// NonCert adds a plain public key to the reply: at its end, or (NonCertPos = k > 0) before the k-th certificate
+	NonCert    bool
+	NonCertPos int
 	// Scribble: after keeping its own copy, the signer edits the request it was handed (as a CA client
 	// wrapper may do): later requests must not be affected
 	Scribble bool
@@ -197,7 +198,11 @@ func (s *Signer) Sign(ctx context.Context, req *proto.SSHCertificateSigningReque
 		out = append(out, c)
 	}
 	if s.NonCert {
-		out = append(out, pk)
+		if k := s.NonCertPos; k > 0 && k <= len(out) {
+			out = append(out[:k-1], append([]ssh.PublicKey{pk}, out[k-1:]...)...)
+		} else {
+			out = append(out, pk)
+		}
 	}
 	rec.Certs = out
 	if s.After != nil {
